@@ -29,9 +29,9 @@ def loops_in_order(fnode):
 
 
 class Verifier(Executor):
-    def __init__(self, repo, prover, contracts, fi):
+    def __init__(self, repo, prover, contracts, fi, key=None):
         super().__init__(repo, prover, contracts, fi)
-        self.cur_contract = contracts.contracts.get(fi.qualname)
+        self.cur_contract = contracts.contracts.get(key or fi.qualname)
         self.loop_ord = {id(l): k + 1 for k, l in enumerate(loops_in_order(fi.node))}
         self.used_contracts = set()
         self.raised = []
@@ -213,10 +213,18 @@ class Verifier(Executor):
         for oid, o in objs.items():
             if isinstance(o, ArrObj):
                 st.heap[oid] = o.fresh_term(tag)
+                self.assume_dtype(st, o)
             else:
                 n = fresh_int("len" + tag)
                 st.pc.append(n >= 0)
                 st.heap[oid] = (n, z3.Const(fresh_name("list" + tag), z3.ArraySort(INT, INT)))
+
+    def assume_dtype(self, st, o):
+        if o.dtype in DTYPE_RANGE:
+            lo, hi = DTYPE_RANGE[o.dtype]
+            ks = [z3.Int(fresh_name("d")) for _ in o.shape]
+            e = z3.Select(st.heap[o.id], *ks)
+            st.pc.append(z3.ForAll(ks, z3.And(e >= lo, e <= hi), patterns=[e]))
 
     def check_invariants(self, st, lc, kind, extra_env, line):
         ok = True
